@@ -189,6 +189,8 @@ def _run_machine(case, log, probes):
     mon = Mon(built, log, cfg)
     tol = xf(cfg["tol"])
     for i, op in enumerate(case["ops"]):
+        if bm.apply_env(op):
+            continue
         td0 = getattr(built.interval, "_tree_dt", None) if built.interval is not None else None
         if op["op"] == "point":
             mon.ex.point(xf(op["t"]), op.get("faults"), i)
@@ -333,6 +335,13 @@ def _run_sdeint(case, log, probes):
 
 
 def run_case(case, keep_log=False):
+    try:
+        return _run_case(case, keep_log)
+    finally:
+        bm.restore_env()
+
+
+def _run_case(case, keep_log=False):
     log = EventLog(keep_log)
     probes = {k: 0 for k in PROBES}
     violation = None
